@@ -5,6 +5,7 @@ CONSTANTS
   SkipFix = TRUE
   CctFix = TRUE
   SelfFailFix = TRUE
+  FlushFix = TRUE
   QMax = 1
   PPInterval = 2
   TestMode = FALSE
